@@ -133,7 +133,7 @@ def run_case(ctx, index: int, *, salt="proj"):
 
 
 async def search(ctx):
-    n = ctx.budget(150, 3600)
+    n = ctx.budget(130, 2400)
     st = ctx.stats
     for i in range(n):
         found, summary, project = await asyncio.to_thread(run_case, ctx, i)
